@@ -206,7 +206,7 @@ def fixed_programs():
     out.append(prog("J9_throw", [gvar("a", SI, {"e": "call", "fi": 1, "args": [lit(SI, 4)]}), stmt(pr(var("a"))),
                                  gvar("b", SI, {"e": "call", "fi": 1, "args": [lit(SI, -4)]}), stmt(pr(S("not reached")))],
                     funs=[tf], exns=["Ex0", "Ex1"]))
-    # finding C12 javac-fail "not a statement": an unused Boolean initialised by `not (call)` (visible at -Q1)
+    # regression of the fixed finding C12 javac-fail "not a statement" (6ab265e): an unused Boolean initialised by `not (call)`, -Q1
     out.append(prog("F1_unused_not", [gvar("g7", BOOL, prim("bool.not", prim("si.lt", lit(SI, -8), lit(SI, -1)))), stmt(pr(lit(SI, 1)))]))
     # finding C12 compile-reject (front end): overloaded empty? in a file-level conditional expression
     out.append(prog("F2_file_level_if_overload", [
@@ -214,6 +214,15 @@ def fixed_programs():
         stmt({"e": "asg", "x": "g1", "v": iff({"e": "empty", "l": var("g1")}, {"e": "cons", "t": LSI, "h": lit(SI, -4), "tl": var("g1")},
                                               {"e": "list", "t": LSI, "args": [lit(SI, 7)]}, LSI)}),
         stmt(pr({"e": "first", "l": var("g1")}))]))
+    # open finding C12 (optimiser, both routes): emerge loses a record field store when the record variable is assigned in a loop
+    out.append(prog("F3_emerge_record_store", [
+        gvar("g2", LSI, {"e": "list", "t": LSI, "args": [lit(SI, 1), lit(SI, 2)]}),
+        gvar("g5", ["rec", 0], {"e": "mkrec", "t": ["rec", 0], "args": [lit(SI, 7)]}),
+        stmt({"e": "forin", "x": "e7", "src": var("g2"), "et": SI, "body": block(
+            {"e": "asg", "x": "g5", "v": {"e": "mkrec", "t": ["rec", 0], "args": [lit(SI, 255)]}},
+            {"e": "forin", "x": "e8", "src": var("g2"), "et": SI, "body": block(
+                {"e": "rset", "r": var("g5"), "i": 1, "v": lit(SI, 5), "rt": 0})})}),
+        stmt(pr({"e": "rget", "r": var("g5"), "i": 1, "rt": 0}))], recs=[[SI]]))
     # outside the family: the result depends on the width of the machine integer
     out.append(prog("X_width_add", [gvar("a", SI, lit(SI, 2147483647)), stmt(pr(prim("si.add", var("a"), lit(SI, 1))))]))
     out.append(prog("X_width_mul", [gvar("a", SI, lit(SI, 65536)), stmt(pr(prim("si.tobi", prim("si.mul", var("a"), var("a")))))]))
